@@ -54,6 +54,8 @@ type G struct {
 	P  Params
 	// StrVocab, when set, replaces the vocabulary of string leaves (not keys)
 	StrVocab []string
+	// KeyStr, when set, replaces the vocabulary of string-typed list keys
+	KeyStr []string
 }
 
 // Hints: conforming values for leaves whose type is restricted (by schema path).
@@ -211,6 +213,9 @@ func (g *G) keyTuple(n *abs.SNode) []string {
 		kv := KeyVocab[kt]
 		if len(kv) == 0 {
 			kv = KeyVocab["string"]
+		}
+		if kt == "string" && len(g.KeyStr) > 0 {
+			kv = g.KeyStr
 		}
 		key = append(key, kv[g.R.Intn(len(kv))])
 	}
